@@ -102,7 +102,7 @@ def run(tier, replay=None):
         if res["extra"].get("grid_unreached") and not ck.violations:
             ck.unproved("%d grid probes were never reached (a context template no longer nests as expected)" % res["extra"]["grid_unreached"],
                         {"broken": "grid context templates"})
-        nbase = sum(v for k, v in res["distribution"].items() if k in ("mutation=none", "mutation=multi_ref_valid", "mutation=apikey_two_schemes_valid", "mutation=feature_map_array_key", "mutation=feature_sized_int_enum"))
+        nbase = sum(v for k, v in res["distribution"].items() if k in ("mutation=none", "mutation=multi_ref_valid", "mutation=apikey_two_schemes_valid", "mutation=feature_map_array_key", "mutation=feature_sized_int_enum", "mutation=base_path_param_valid"))
         nrej = res["distribution"].get("base_design_rejected", 0)
         if nrej > max(2, nbase // 50) and not ck.violations:
             ck.unproved("%d of %d unmutated random designs are rejected by goa: the design generator left its envelope (or goa rejects valid designs)" % (nrej, nbase),
